@@ -46,6 +46,9 @@ contract(D + 'pad_missing_labels', props=['C04', 'C10'],
                   ("front-margin", "forall(0, (window_size - 1)//2, lambda i: result[i] == -1)"),
                   ("interior", "forall(0, len(original_labels), lambda i: result[(window_size - 1)//2 + i] == original_labels[i], "
                    "pat=(result[(window_size - 1)//2 + i],))"),
+                  # the same fact indexed by position: a trigger without arithmetic, so callers' proofs do not depend on e-matching modulo +
+                  ("interior-by-position", "forall((window_size - 1)//2, (window_size - 1)//2 + len(original_labels), "
+                   "lambda t: result[t] == original_labels[t - (window_size - 1)//2])"),
                   ("back-margin", "forall((window_size - 1)//2 + len(original_labels), len(result), lambda i: result[i] == -1)"),
                   "fresh(result)", "unchanged(original_labels)"])
 
